@@ -139,6 +139,31 @@ BPlusNode* tree_find_leaf(BPlusTree *tree, PyObject *key);
 
 /* Memory pool operations (removed) */
 
+#ifdef KENTBECK_BPLUSTREE3_VERIF
+/* Verification hook (compiled only with -DKENTBECK_BPLUSTREE3_VERIF): node-memory
+ * accounting, read through bplustree_c._verif_counters().
+ *   verif_nodes_created  node blocks handed out by node_create
+ *   verif_nodes_freed    node blocks given to cache_aligned_free
+ *   verif_temp_allocs    temporary split arrays obtained from PyMem_Malloc
+ *   verif_temp_frees     temporary split arrays given back with PyMem_Free
+ * Every PyMem_Malloc / PyMem_Free call of the extension (the two split paths) is routed
+ * through the counting wrappers below; NULL results / NULL arguments are not counted. */
+extern size_t verif_nodes_created, verif_nodes_freed, verif_temp_allocs, verif_temp_frees;
+static inline void *verif_temp_malloc(size_t n) {
+    void *p = PyMem_Malloc(n);
+    if (p) ++verif_temp_allocs;
+    return p;
+}
+static inline void verif_temp_free(void *p) {
+    if (p) ++verif_temp_frees;
+    PyMem_Free(p);
+}
+#undef PyMem_Malloc
+#undef PyMem_Free
+#define PyMem_Malloc(n) verif_temp_malloc(n)
+#define PyMem_Free(p) verif_temp_free(p)
+#endif
+
 /* Utility functions */
 void node_split_leaf(BPlusNode *node, BPlusNode *new_node);
 void node_split_branch(BPlusNode *node, BPlusNode *new_node, PyObject **promoted_key);
